@@ -77,7 +77,7 @@ def main():
             for k in sorted(os.listdir(os.path.join(root, r))):
                 p = os.path.join(root, r, k)
                 if os.path.exists(os.path.join(p, "patch.diff")):
-                    cands.append((p, "%s-%s" % (r, k)))
+                    cands.append((p, "%s-%s%s" % (r, k, os.environ.get("ID_SUFFIX", ""))))
     only = os.environ.get("ONLY")
     if only:
         cands = [c for c in cands if c[1].split("-")[0] in only.split(",") or c[1] in only.split(",")]
@@ -89,13 +89,14 @@ def main():
         for c, a in sorted(r.get("alarms", {}).items()):
             for l in a["lines"][:3]:
                 print("        %s exit %d: %s" % (c, a["exit"], l[:260]))
-        if install and ok:
+        if install and ok and not any(a["exit"] == 1 for a in r.get("alarms", {}).values()):
             dst = os.path.join(VERIF, "twins", r["id"])
             os.makedirs(dst, exist_ok=True)
             for fn in ("patch.diff", "equiv.py", "notes.md"):
                 if os.path.exists(os.path.join(r["dir"], fn)):
                     shutil.copy(os.path.join(r["dir"], fn), os.path.join(dst, fn))
             json.dump({"id": r["id"], "kind": "behaviour-preserving refactoring by an independent sub-agent", "confirmed": ["applies to HEAD", "57 tests pass", "equiv.py prints SAME"],
+                       "undecided_at_install": sorted(c for c, a in r.get("alarms", {}).items() if a["exit"] == 2),
                        "alarms_at_install": r.get("alarms", {})}, open(os.path.join(dst, "meta.json"), "w"), indent=1)
 
 
